@@ -564,6 +564,8 @@ pub fn run_world<W: World>(
         .max(1);
     let next = AtomicUsize::new(0);
     let stop = AtomicBool::new(false);
+    // Sensitivity sweeps over hundreds of mutants only need "is it caught": stop at the first violation.
+    let fast_fail = std::env::var("AXSIM_FAST_FAIL").is_ok();
     let start = Instant::now();
     let seed = agg.seed;
     let results: Mutex<Vec<RunSummary<W>>> = Mutex::new(Vec::new());
@@ -619,6 +621,9 @@ pub fn run_world<W: World>(
                     }
                     let interesting =
                         out.violation.is_some() || out.harness_error.is_some() || idx < 3;
+                    if fast_fail && out.violation.is_some() {
+                        stop.store(true, Ordering::Relaxed);
+                    }
                     local.push(RunSummary {
                         idx,
                         run_seed,
@@ -695,7 +700,7 @@ pub fn run_world<W: World>(
             if r.out.harness_error.is_some() {
                 continue;
             }
-            if seen_classes.contains(&v.class) || seen_classes.len() >= 3 {
+            if seen_classes.contains(&v.class) || seen_classes.len() >= if fast_fail { 1 } else { 3 } {
                 // one minimised replay per class is enough
                 agg.violations
                     .push((v.class.clone(), String::from("(same class as above)")));
@@ -730,7 +735,7 @@ pub fn run_world<W: World>(
                 minimisation_reexecutions: used,
                 log: fin.log.clone(),
             };
-            let dir = format!("{}/replays", VERIF_DIR);
+            let dir = std::env::var("AXSIM_REPLAY_DIR").unwrap_or_else(|_| format!("{}/replays", VERIF_DIR));
             let _ = std::fs::create_dir_all(&dir);
             let cls: String = fv
                 .class
